@@ -398,9 +398,46 @@ class Ctx:
                 cur.append(line.strip())
         return [' '.join(v).strip() for v in vals]
 
+    def coqchk(self, timeout=1500):
+        """Thorough tier: re-check props/<prop>.vo and everything it depends on with the independent
+        checker and record the axioms it reports."""
+        vo = os.path.join(COQ, 'props', self.prop + '.vo')
+        if not os.path.exists(vo):
+            return
+        ob = f'coqchk:props/{self.prop}.vo'
+        self.obligations.append(ob)
+        t = time.time()
+        try:
+            with Lock():
+                rc, out = sh(['timeout', str(timeout), 'coqchk', '-silent', '-o', '-Q', '.', 'PB', f'PB.props.{self.prop}'],
+                             cwd=COQ, timeout=timeout + 30)
+        except subprocess.TimeoutExpired:
+            rc, out = 124, 'timeout'
+        self.checker_cmds.append(f'cd coq && coqchk -silent -o -Q . PB PB.props.{self.prop}  ({time.time() - t:.0f}s)')
+        m = re.search(r'\* Axioms:(.*?)\n\s*\n\* Constants/Inductives relying on type-in-type:(.*?)\n\s*\n'
+                      r'\* Constants/Inductives relying on unsafe \(co\)fixpoints:(.*?)\n\s*\n'
+                      r'\* Inductives whose positivity is assumed:(.*?)\n', out + '\n\n', re.S)
+        if rc == 0 and m:
+            axioms = ' '.join(m.group(1).split())
+            unsafe = [' '.join(m.group(i).split()) for i in (2, 3, 4)]
+            self.extra['coqchk'] = {'axioms': axioms, 'type_in_type': unsafe[0], 'unsafe_fixpoints': unsafe[1],
+                                    'assumed_positivity': unsafe[2]}
+            self.trusted.append(f'coqchk -o props/{self.prop}.vo: axioms {axioms}')
+            if all(u == '<none>' for u in unsafe):
+                self.discharged.append(ob)
+            else:
+                self.broke(ob, f'coqchk reports unsafe features: {unsafe}')
+        else:
+            self.broke(ob, f'coqchk failed (rc={rc}): {out[-800:]}')
+
     # -- verdict
     def finish(self):
         os.makedirs(REPLAY_DIR, exist_ok=True)
+        if self.tier == 'thorough' and not self.broken and not self.violations:
+            try:
+                self.coqchk()
+            except Exception:  # noqa
+                self.broke('coqchk', traceback.format_exc()[-800:])
         lines = []
         code = 0
         for k, (desc, case) in self.known_hit.items():
